@@ -9,6 +9,6 @@ CONSTANTS
   MaxTicks = 3
   Weaken = "none"
   StopRoles <- BothRoles
-INVARIANTS TypeOK Fidelity NoSilentCorruption NoFalseSuccess CleanRunSucceeds DeleteExact
+INVARIANTS TypeOK Fidelity NoSilentCorruption NoFalseSuccess CleanRunSucceeds DeleteExact StopDelAgreed
 PROPERTIES Termination
 CHECK_DEADLOCK FALSE
